@@ -35,6 +35,7 @@ C13-b/patch.diff C13 RoutingStep
 C14-a/patch.diff C14
 C15-a/patch.diff C15 Expiry
 C15-b/patch.diff C15 Expiry
+C16-a/patch.diff C16 ScanHandler
 C16-b/patch.diff C16 Parsers
 C17-a/patch.diff C17
 C17-b/patch.diff C17
@@ -46,8 +47,8 @@ C20-a/patch.diff C20 DMapCompaction
 C20-b/patch.diff C20
 reverts/R-eb97b81.diff C11 Map
 reverts/R-d6a3439.diff C11 Map
-reverts/R-a9ed52b.diff C11 Map
-reverts/R-51102eb.diff C11 Map
+reverts/R-a9ed52b.diff C20 Churn
+reverts/R-51102eb.diff C20 Accounting
 reverts/R-22548f8.diff C12 Scan
 reverts/R-22a1e06.diff C12 Scan
 reverts/R-06339eb.diff C18
@@ -64,4 +65,14 @@ reverts/R-6cad632.diff C10 MaxKeys
 reverts/R-2b6b82d.diff C14
 reverts/R-5cb11b9.diff C14
 reverts/R-7fe726b.diff C07 Atomic
+reverts/R-559a2f6.diff C17 DMapLimits
+C01-c/patch.diff C01 Register
+C04-c/patch.diff C04 MirrorTables
+C06-c/patch.diff C06 Read
+C07-c/patch.diff C07 Mixed
+C08-c/patch.diff C08 LockWait
+C11-c/patch.diff C11 Layouts
+C12-c/patch.diff C12 Scan
+C14-c/patch.diff C14
+C18-c/patch.diff C18 Recycle
 LIST
